@@ -78,6 +78,9 @@ func (f *c03Format) vocabOf(ci int) []string {
 	return f.Vocab
 }
 
+// c03Runes: the multi-byte characters substituted and inserted into every seed file.
+var c03Runes = []string{"\u00b5", "\u00e9", "\u017f", "\u212a"}
+
 const c03Huge = "99999999999"           // a count no file can honour
 const c03MaxInt = "9223372036854775807" // the largest 64-bit integer
 const c03Overflow = "9223372036854775808"
@@ -183,7 +186,7 @@ func c03Formats() []*c03Format {
 				{Pre: "#NEXUS\nBEGIN DATA;\nDIMENSIONS ", Post: nxTail,
 					Vocab: []string{"NTAX ", "NCHAR ", "FOO ", "=", "0 ", "1 ", "2 ", "-1 ", c03Huge + " ", c03Overflow + " ", ";", "[", "\n"}},
 				{Pre: "#NEXUS\nBEGIN DATA;\nFORMAT ", Post: ";\nMATRIX\nx A.\ny -?\n;\nEND;\n",
-					Vocab: []string{"DATATYPE ", "MISSING ", "GAP ", "MATCHCHAR ", "INTERLEAVE ", "=", "DNA ", "PROTEIN ", "? ", ". ", "- ", "1 ", ";", "[", "\n"}},
+					Vocab: []string{"DATATYPE ", "MISSING ", "GAP ", "MATCHCHAR ", "INTERLEAVE ", "=", "DNA ", "PROTEIN ", "? ", ". ", "- ", "1 ", "\u00e9 ", ";", "[", "\n"}},
 				{Pre: "#NEXUS\nBEGIN DATA;\nMATRIX\n", Vocab: nxMatrix},
 				{Pre: "#NEXUS\nBEGIN DATA;\nMATRIX\n", Post: ";\nEND;\n", Vocab: nxMatrix},
 				{Pre: "#NEXUS\nBEGIN TAXA;\n", Post: "BEGIN DATA;\nMATRIX\nx AC\ny GT\n;\nEND;\n",
@@ -201,6 +204,11 @@ func c03Formats() []*c03Format {
 				{Name: "taxa-dimensions", Text: "#NEXUS\nBEGIN TAXA;\nDIMENSIONS NTAX=2;\nTAXLABELS a b;\nEND;\nBEGIN DATA;\nDIMENSIONS NTAX=2 NCHAR=2;\nFORMAT DATATYPE=DNA;\nMATRIX\na AC\nb GT\n;\nEND;\n"},
 				{Name: "lower-case-crlf", Text: "#nexus\r\nbegin data;\r\ndimensions ntax=2 nchar=2;\r\nformat datatype=dna;\r\nmatrix\r\na AC\r\nb GT\r\n;\r\nend;\r\n"},
 				{Name: "no-dimensions", Text: "#NEXUS\nBEGIN DATA;\nMATRIX\na AC\nb GT\n;\nEND;\n"},
+				// symbols declared as a multi-byte character and used in the rows: NCHAR counts bytes or characters?
+				{Name: "two-byte-gap-symbol", Text: "#NEXUS\nBEGIN DATA;\nDIMENSIONS NTAX=2 NCHAR=5;\nFORMAT DATATYPE=DNA GAP=\u00e9;\nMATRIX\na AC\u00e9T\nb A\u00e9GT\n;\nEND;\n"},
+				{Name: "two-byte-missing-symbol", Text: "#NEXUS\nBEGIN DATA;\nDIMENSIONS NTAX=2 NCHAR=5;\nFORMAT DATATYPE=DNA MISSING=\u00e9;\nMATRIX\na AC\u00e9T\nb A\u00e9GT\n;\nEND;\n"},
+				{Name: "two-byte-matchchar-symbol", Text: "#NEXUS\nBEGIN DATA;\nDIMENSIONS NTAX=2 NCHAR=5;\nFORMAT DATATYPE=DNA MATCHCHAR=\u00e9;\nMATRIX\na ACGGT\nb A\u00e9GT\n;\nEND;\n"},
+				{Name: "two-byte-symbols-counted-as-characters", Text: "#NEXUS\nBEGIN DATA;\nDIMENSIONS NTAX=2 NCHAR=4;\nFORMAT DATATYPE=DNA GAP=\u00e9;\nMATRIX\na AC\u00e9T\nb A\u00e9GT\n;\nEND;\n"},
 				{Name: "repo-test-goodnexus", Text: c03RepoNexus},
 			},
 		}
@@ -507,7 +515,7 @@ func c03Boundaries(s string, tokens bool) []int {
 
 // seedTask: the seed itself and every truncation, single-byte deletion,
 // single-byte substitution by and insertion of a byte of the format's
-// alphabet, line deletion, line duplication and swap of two lines.
+// alphabet, substitution by and insertion of four multi-byte characters, line deletion, line duplication and swap of two lines.
 func (f *c03Format) seedTask(si int) mc.Task {
 	seed := &f.Seeds[si]
 	return mc.Task{Name: fmt.Sprintf("%s-seeds#%s", f.Name, seed.Name), Run: func(c *mc.Ctx) {
@@ -545,6 +553,23 @@ func (f *c03Format) seedTask(si int) mc.Task {
 		for i := 0; i <= len(s); i++ {
 			for j := 0; j < len(f.Bytes); j++ {
 				if !try("byte-insertion", s[:i]+f.Bytes[j:j+1]+s[i:]) {
+					return
+				}
+			}
+		}
+		// multi-byte characters (valid UTF-8, so that they pass lexers that read runes): case mapping leaves
+		// Latin-1 for two of them (upper(µ) = U+039C, upper(ſ) = 'S', lower(KELVIN SIGN) = 'k'), byte and
+		// rune counts differ for all
+		for i := 0; i < len(s); i++ {
+			for _, r := range c03Runes {
+				if !try("rune-substitution", s[:i]+r+s[i+1:]) {
+					return
+				}
+			}
+		}
+		for i := 0; i <= len(s); i++ {
+			for _, r := range c03Runes {
+				if !try("rune-insertion", s[:i]+r+s[i:]) {
 					return
 				}
 			}
@@ -683,7 +708,7 @@ func init() {
 			"in a second block, after a complete alignment, inside a strict Phylip name …) and every byte string s of length <= 4 (quick) / 5 (thorough) over the format's 10-13 byte alphabet (its punctuation, letters, digits, space, LF, CR, NUL, 0xFF); " +
 			"(b) tokens: the same with every token string of length <= 4 (quick) / 5 (thorough) over the context's prefix-free vocabulary of 9-16 tokens (keywords, punctuation, names, residue runs, whole lines, line ends, the numerals 0 1 2 -1 99999999999 9223372036854775807 9223372036854775808); " +
 			"an input already produced in an earlier context of the same family is not repeated; (c) seeds: for each of 7-15 valid files per format (writer outputs of 3x4, 2x62 and protein alignments, multi-block, interleaved, stream, CRLF, duplicate-name, markup, comment variants, the fixtures of the repository's own parser tests except the 19 kB Stockholm one; the 1.7 kB Clustal fixture in the thorough tier only) the file itself and every truncation, every single-byte deletion, " +
-			"every single-byte substitution by and insertion of each byte of the alphabet, every line deletion, line duplication and swap of two lines; (d) splices: prefix(A)+suffix(B) for all ordered pairs of seeds of a format, cut at every line start (quick) / every token boundary (thorough). " +
+			"every single-byte substitution by and insertion of each byte of the alphabet, every substitution by and insertion of the multi-byte characters U+00B5, U+00E9, U+017F, U+212A (valid UTF-8; case mapping leaves Latin-1 for three of them), every line deletion, line duplication and swap of two lines; (d) splices: prefix(A)+suffix(B) for all ordered pairs of seeds of a format, cut at every line start (quick) / every token boundary (thorough). " +
 			"Oracle per parse: the call returns (no panic, no livelock, no process death); an error or io.ExitWithMessage is an explicit error; a success must be non-nil (phylip: nil,nil = end of stream, not accepted on a valid seed), have >= 1 row and >= 1 column, all rows as long as Length() (alignments), pairwise distinct names, " +
 			"rows/length equal to the counts of the Phylip header line (first alignment; later alignments of a stream must match some two-integer line) and to NTAX/NCHAR of the Nexus DIMENSIONS commands read by an independent reader; a partition set must map exactly the sites 0..length-1 to -1 or a valid partition index. " +
 			"A (entry point, input) pair is non-trivial when at least one option combination parses successfully; distinct = distinct pair.",
